@@ -74,6 +74,10 @@ def cells(tier, seed):
             out.append(_cell(i, pair, solvent, ['quantity', 'total_quantity'], qu=qu2, tu='mL')); i += 1
             out.append(_cell(i, pair, solvent, ['quantity', 'total_quantity'], qu='mg', tu='g')); i += 1
     out.append(_cell(i, ['NaCl', 'Na2SO4'], 'water', ['concentration', 'quantity'], cu='M', qu='g')); i += 1
+    # per-solute concentrations that share a numerator (or a denominator) unit but not both
+    for solvent in (['DMSO'] if tier == 'quick' else ['DMSO', 'water', 'container']):
+        for cu2 in [['M', 'm'], ['m', 'M'], ['mg/g', 'g/L'], ['M', 'mol/mol'], ['g/L', 'M']]:
+            out.append(_cell(i, ['NaCl', 'Na2SO4'], solvent, ['concentration', 'total_quantity'], cu=cu2, tu='mL')); i += 1
     if tier == 'thorough':
         tri = ['NaCl', 'Na2SO4', 'DMSO']
         out.append(_cell(i, tri, 'water', ['concentration', 'total_quantity'], cu='M', tu='mL')); i += 1
